@@ -5,6 +5,11 @@ CLAIMS = {
      design_ref="§5 C18", engine="retryopts",
      note="Trusted: Coq kernel, the hand-written model of src/runner/basic.rs:142-195,762-766 (validated, not verified), the harness and orchestrator; humantime::parse_duration is an oracle; K18a (prefix-only tags such as @retrying) excluded by hypothesis and reported as KNOWN-FINDING.",
      technique="Coq theorem (model = spec) + differential correspondence check of model vs code"),
+ "C13": dict(
+     text="Full: the Gallina transcription of FailOnSkipped, Repeat, Tee, Or, discard::Arbitrary and discard::Stats as one pipeline grammar over recording leaves is proved transparent for arbitrary (not only contract-abiding) event lists and arbitrary nestings: FailOnSkipped rewrites exactly the Skipped step/background events of selected scenarios in place, Repeat forwards everything at once and re-delivers the selected events once, in order, right after Finished, Tee delivers everything to both sides, Or each event to exactly one side, Stats combine by max / sum; tied to the code by running the real wrappers around recording leaves and comparing deliveries after every handle_event call.",
+     design_ref="§5 C13", engine="combinators",
+     note="Trusted: Coq kernel, hand-written model of src/writer/{fail_on_skipped,repeat,tee,or,discard}.rs (validated by the differential check), harness (dynpipe.rs boxes the real wrappers), orchestrator. User predicates are tables (pure functions of scenario / event).",
+     technique="Coq theorems about the model + differential correspondence check"),
  "C15": dict(
      text="Full: the Gallina model of the filter built in Cucumber::filter_run is proved to keep exactly the scenarios accepted by (--name regex, else --tags over feature+rule+scenario tags, else the closure), in original order, with rules/background/tags intact, and tag expressions are proved to be ordinary boolean formulas over tag membership; tied to the code by driving the real filter_run with a vector parser and a recording Runner.",
      design_ref="§5 C15", engine="filter",
@@ -22,6 +27,7 @@ CLAIMS = {
      technique="Coq theorems about the model + differential correspondence check"),
 }
 ENGINES = {
+ "combinators": ("/verif/harness/src/engines/combinators.rs", "differential correspondence: real FailOnSkipped/Repeat/Tee/Or/discard nestings around recording leaves vs Gallina model, per handle_event call"),
  "filter": ("/verif/harness/src/engines/filter.rs", "differential correspondence: real Cucumber::filter_run (vector parser, recording Runner) vs Gallina model"),
  "outline": ("/verif/harness/src/engines/outline.rs", "differential correspondence: real Feature::expand_examples (hand-built, scanner probes, parsed texts) vs Gallina model"),
  "stepmatch": ("/verif/harness/src/engines/stepmatch.rs", "differential correspondence: real step::Collection::find under two registration orders vs Gallina model"),
